@@ -330,4 +330,35 @@ theorem len_le_log_of_inv2 (s : TC K) (h : Inv2 s) :
     exact Nat.mul_le_mul_right _ (by omega)
   omega
 
+/-! accounting of the culled counts -/
+
+theorem sum_filter_split (p : Entry K → Bool) (cm : List (Entry K)) :
+    ((cm.filter p).map (·.cnt)).sum + ((cm.filter (fun e => !(p e))).map (·.cnt)).sum
+      = (cm.map (·.cnt)).sum := by
+  induction cm with
+  | nil => simp
+  | cons a as ih =>
+    simp only [List.filter_cons]
+    cases hp : p a <;> simp [hp] <;> omega
+
+theorem add_common (s : TC K) (k : K) :
+    (s.add k).commonCount + s.culledBy k = s.commonCount + 1 := by
+  have hs := sum_upsert k s.bucket s.cm
+  unfold TC.add TC.culledBy TC.commonCount
+  by_cases hm : (s.total + 1) % s.w = 0
+  · simp only [hm, if_true]
+    have := sum_filter_split (fun e => decide (e.cnt + e.dlt > s.bucket)) (upsert k s.bucket s.cm)
+    omega
+  · simp only [hm, if_false]; omega
+
+theorem addAll_common (s : TC K) (ks : List K) :
+    (s.addAll ks).commonCount + culled s ks = s.commonCount + ks.length := by
+  induction ks generalizing s with
+  | nil => simp [TC.addAll, culled]
+  | cons a as ih =>
+    have h1 := ih (s.add a)
+    have h2 := add_common s a
+    simp only [TC.addAll, List.foldl_cons, culled, List.length_cons] at h1 ⊢
+    omega
+
 end C20
